@@ -3,10 +3,11 @@ PROP = dict(
         gens=['sixel'],
         lake=['IcyVerif.Props.C14'],
         ns='IcyVerif.C14',
-        theorems=['constants_match_source', 'sixel_rect', 'sixel_pad_only', 'sixel_raster_consistent', 'sixel_total', 'decode_total', 'sixel_cursor_overflow_is_error',
+        theorems=['constants_match_source', 'raster_source_unchanged', 'sixel_rect', 'sixel_pad_only', 'sixel_raster_consistent',
+                  'sixel_raster_consistent_at_end', 'sixel_total', 'decode_total', 'sixel_cursor_overflow_is_error',
                   'sixel_rect_pinned_false',
                   'schedule_independent', 'schedule_independent_pair', 'all_delivered_after_polls',
-                  'poll_nonblocking', 'poll_stops_at_unfinished', 'no_loss_no_dup', 'no_loss',
+                  'poll_nonblocking', 'poll_stops_at_unfinished', 'no_loss_no_dup', 'no_loss', 'no_loss_at_error',
                   'load_source_unchanged', 'load_one_layer_per_image', 'load_cell_size', 'load_schedule_independent',
                   'load_never_blocks', 'load_no_loss', 'load_text_clear', 'clear_forgets', 'placement_loses_only_covered', 'dcs_handoff'],
         harness='c14',
@@ -16,10 +17,16 @@ PROP = dict(
                   'over row LENGTHS with every index / % operation as an explicit panic outcome and the checked i32 cursor arithmetic '
                   'as a parse error: rectangularity, consistency with a raster attribute and panic freedom (FULL: sixel_total, '
                   'decode_total) by an invariant over the char list (rows % 4 = 0, rows in range, palette non-empty); the picture is '
-                  'independent of the scale arguments (decode_img, a simulation argument over every step function). '
+                  'independent of the scale arguments (decode_img, a simulation argument over every step function); the raster theorem holds for '
+                  'an attribute ANYWHERE in the payload (sixel_raster_consistent: hdr = any prefix, also picture data — rows decoded above the '
+                  'declared height are cut by the resize of both arms; rows the attribute adds are at least the declared width; positional '
+                  'invariant Frozen H k m over the rest of the char list; sixel_raster_consistent_at_end for an attribute closed by the end '
+                  'of the payload); the text of the raster arm is pinned (raster_source_unchanged). '
                   '(b) Buffer::update_sixel_threads as a transition system over arrive/finish/poll/clear events: by induction over '
                   'EVERY event list the layer is the arrival-order placement of the popped prefix (schedule independence), poll never '
-                  'joins a running thread, the push log is the ok part of an arrival prefix (no loss / no duplication), a clear-screen '
+                  'joins a running thread, the push log is the ok part of an arrival prefix (no loss / no duplication), a poll that returns '
+                  'the error of a failing decode has still pushed every good image in front of it and leaves the handles behind it queued '
+                  '(no_loss_at_error: any number of finished decodes at one poll, the failing one anywhere), a clear-screen '
                   'forgets everything before it; the covering rule removes nothing but images covered by a LATER image '
                   '(placement_loses_only_covered). (c) the file-loading path parse_with_parser: the join loop under an arbitrary '
                   'completion schedule ends with a result that depends on the arrival order only (load_schedule_independent), and the '
@@ -32,12 +39,23 @@ PROP = dict(
         rule='(a) boundary payloads; structured pictures (raster attribute smaller/equal/larger than the data, colour selects and '
              'RGB/HLS definitions, "!" repeats up to 500, "$" overprints, bands of unequal length); token-level and char-level random streams over the sixel '
              'alphabet plus digits, ";", junk, code points > 0x7F; ALL strings up to length 3 (quick) / 5 (thorough) over '
-             '~A?-$!#";12. (b) k = 1..4 images x ALL k! completion orders x ALL 2^k placements of a poll after each completion '
-             '(quick: 4 geometry sets per k incl. one with panicking decode threads, thorough: 12), '
+             '~A?-$!#";12; LATE raster attributes: a grid of 10 data prefixes x 11 declared heights around the band boundaries x (3 numbers | 4 numbers '
+             'with 4 widths) x 7 continuations (3850 payloads, every run) and 2000 (quick) seeded payloads with 1..3 attributes in the middle of a band, '
+             'after "-", after "$", at the very end, declaring less / as many / more rows than decoded so far, followed by data inside and beyond the '
+             'new height; the oracle finds EVERY raster attribute lexically (reading state only), takes the last one that declares a size and demands '
+             'height = declared, width >= declared if the attribute added rows (prefix decoded by the real parser); buckets raster:<place>:<n>-numbers:<cuts|same|adds>. (b) k = 1..4 images x ALL k! completion orders x ALL 2^k placements of a poll after each completion '
+             '(quick: 5 geometry sets per k incl. one with panicking decode threads and one with FAILING decodes (Err) at positions 1 and 3, thorough: 13), '
              'with/without a leading poll, closing polls; a clear-screen (ESC[2J, ESC[3J, FF) after each prefix of each completion order; '
              'plus seeded random interleavings of arrivals, completions, polls and clear-screens '
              '(some decodes never finishing); decode threads that PANIC (the gate callback panics inside the thread, so join() is Err) '
-             'between images that the same poll must still deliver. (c) hand-made and seeded files under ans/ice/diz/avt/pcb/msg/an1/asc/unknown extensions with 0..=5 sixel '
+             'between images that the same poll must still deliver; batch-at-one-poll family: EVERY assignment of {ok, Err, panic, still running} '
+             'to k = 1..4 arrivals x 3 geometries (disjoint, each covering all earlier, one place nobody covered): all non-running decodes complete, then ONE '
+             'poll meets the batch (a failing decode at every position), closing polls, the rest completes (1020 scenarios); partial-cover family: an older '
+             'image sticking out of the newer one on each side (by a cell / by one pixel), shared borders, identical, inside, disjoint, both arrival and '
+             'completion orders, and one image removing several. Poll oracle: after EVERY poll the number of handles that left the queue is read off '
+             'sixel_threads; the layer must be the arrival-order placement of exactly those whose decode succeeded (key sixel_lost: a good image that '
+             'left the queue is neither shown nor covered by a later one; sixel_dup; sixel_order), a poll without error took all leading finished decodes, '
+             'a poll with error stopped at the first failing one; buckets poll:batch>=2:…. (c) hand-made and seeded files under ans/ice/diz/avt/pcb/msg/an1/asc/unknown extensions with 0..=5 sixel '
              'sequences (painted, all-background "?", empty payload, raster attributes declaring 0 / smaller / larger, failing decodes), DCS parameters '
              'before q, positions from CUP / text / CRLF (clustered so that images cover each other), other DCS strings (macro, font, unsupported), '
              'a custom font of another cell size loaded anywhere in the file, clear-screens between sequences, UTF-8 BOM; oracle: image layers = '
@@ -46,7 +64,7 @@ PROP = dict(
              '(get_screen_rect, as_rectangle, contains_rect with shared borders). distinct_nontrivial = distinct payloads decoding to a non-empty '
              'image + distinct (geometry set, event list) scenarios + distinct files yielding at least one image layer.',
         modelled='SixelParser::{parse_from, parse_char, parse_sixel_data, translate_sixel_to_pixel, width, height} with '
-                 'parse_next_number saturation, Palette length (set_color_rgb/hsl resize), Vec::resize of rows, the checked cursor arithmetic, '
+                 'parse_next_number saturation, Palette length (set_color_rgb/hsl resize), Vec::resize of rows (growing and CUTTING, raster attributes before and after picture data, 3- and 4-number arms), the checked cursor arithmetic, '
                  'vertical_scale/horizontal_scale (caller arguments, overwritten by a raster attribute); '
                  'Buffer::update_sixel_threads (front-only pop, is_finished test before join, join error = continue, result? = '
                  'early Err return, shadow removal by Rectangle::contains_rect on Sixel::get_screen_rect, push), execute_dcs '
